@@ -37,7 +37,8 @@ pub fn random_case(r: &mut Rng) -> Case {
     0 => Src::Interval(p),
     // periods below and between whole milliseconds
     1 => if r.chance(1, 2) { Src::IntervalUs([250u64, 500, 1500][r.below(3)]) } else { Src::Interval(p) },
-    2 | 3 => Src::IntervalAt(*r.pick(&[-20i64, 0, 10, 250, 3_600_000]), p),
+    2 => Src::IntervalAt(*r.pick(&[-20i64, 0, 10, 250, 3_600_000]), p),
+    3 => if r.chance(1, 2) { Src::IntervalAtUs(*r.pick(&[-20i64, 0, 10, 250]), [250u64, 500, 1500][r.below(3)]) } else { Src::IntervalAt(*r.pick(&[-20i64, 0, 10, 250, 3_600_000]), p) },
     4 => if r.chance(1, 3) { Src::TimerUs(V::I(5), [400, 900, 999, 1500][r.below(4)]) } else { Src::Timer(V::I(5), [0, 1, 7, 100][r.below(4)]) },
     5 => Src::TimerAt(V::I(5), *r.pick(&[-20i64, 0, 10, 3_600_000])),
     6 => Src::Future(301, scripted(r, false, 1)),
@@ -51,7 +52,7 @@ pub fn random_case(r: &mut Rng) -> Case {
       Src::StreamRes(301, long_or_short(r, true, long))
     }
   };
-  let timed = matches!(src, Src::Interval(_) | Src::IntervalUs(_) | Src::IntervalAt(..) | Src::Timer(..) | Src::TimerUs(..) | Src::TimerAt(..));
+  let timed = matches!(src, Src::Interval(_) | Src::IntervalUs(_) | Src::IntervalAt(..) | Src::IntervalAtUs(..) | Src::Timer(..) | Src::TimerUs(..) | Src::TimerAt(..));
   let gap = if timed && r.chance(1, 3) { [p * MS / 2, p * MS - 1, p * MS, 3 * p * MS + 1, 3 * MS][r.below(5)] } else { 0 };
   let mut wakes = vec![];
   if let Src::Future(id, s) | Src::FutureRes(id, s) | Src::Stream(id, s) | Src::StreamRes(id, s) = &src {
@@ -100,7 +101,7 @@ pub struct Obs {
 }
 
 pub fn observe(c: &Case) -> Result<Obs, String> {
-  let periodic = matches!(c.src, Src::Interval(_) | Src::IntervalUs(_) | Src::IntervalAt(..));
+  let periodic = matches!(c.src, Src::Interval(_) | Src::IntervalUs(_) | Src::IntervalAt(..) | Src::IntervalAtUs(..));
   let ops = if periodic { vec![Op::Take(c.take)] } else { vec![] };
   let horizon = 4_000_000 * MS; // beyond the one-hour instants
   let pipe = Pipe { chain: Chain::new(c.src.clone(), ops), n_hot: 1, acts: c.wakes.clone(), horizon };
@@ -148,8 +149,8 @@ pub fn judge(c: &Case, o: &Result<Obs, String>) -> Option<(String, String, serde
     Some((kind.to_string(), c.src.name().to_string(), json!({"why": why, "observed": o.timed.iter().map(|(t, n)| json!([t, n.j()])).collect::<Vec<_>>()})))
   };
   match &c.src {
-    Src::Interval(p) | Src::IntervalUs(p) | Src::IntervalAt(_, p) => {
-      let p = if matches!(c.src, Src::IntervalUs(_)) { *p * (MS / 1000) } else { *p * MS };
+    Src::Interval(p) | Src::IntervalUs(p) | Src::IntervalAt(_, p) | Src::IntervalAtUs(_, p) => {
+      let p = if matches!(c.src, Src::IntervalUs(_) | Src::IntervalAtUs(..)) { *p * (MS / 1000) } else { *p * MS };
       let mut want: Vec<N> = (0..c.take as i64).map(|i| N::Next(V::I(i))).collect();
       want.push(N::Complete);
       if notes != want {
@@ -160,7 +161,7 @@ pub fn judge(c: &Case, o: &Result<Obs, String>) -> Option<(String, String, serde
       let g = c.gap;
       let (lo, hi): (u64, u64) = match &c.src {
         Src::Interval(_) | Src::IntervalUs(_) => (p.max(g), p.max(g)),
-        Src::IntervalAt(off, _) if *off > 0 => {
+        Src::IntervalAt(off, _) | Src::IntervalAtUs(off, _) if *off > 0 => {
           let off = *off as u64 * MS;
           (off.saturating_sub(o.eps).max(g), off.max(g))
         }
@@ -263,6 +264,8 @@ pub fn run(cfg: &Cfg, rep: &mut Report) {
         Src::IntervalAt(off, p) | Src::IntervalAt(off, p) if *off > 0 && (*off as u64) < *p => "[instant<period]",
         Src::IntervalAt(off, _) if *off > 0 => "[instant>=period]",
         Src::IntervalAt(..) => "[past instant]",
+        Src::IntervalAtUs(off, _) if *off > 0 => "[future instant][period in microseconds]",
+        Src::IntervalAtUs(..) => "[past instant][period in microseconds]",
         Src::IntervalUs(_) => "[period in microseconds]",
         _ => "",
       };
